@@ -936,7 +936,7 @@ Definition hist_d18 : list op := [ORegOp 0; ORegSr 0; OFin true; OTick; ODeregOp
 Definition hist_d30 : list op := [ORegOp 0; ORegSr 0; OFin true; OTick; OAckOp 0 1; OAckSr 0 1; ODeregOp 0; ORegOp 1; OFin true].
 
 Lemma checkpoints_resume_refuted_keep_pending_proof :
-  let c := cfg_of (MkQuirks true false false false false) in
+  let c := cfg_of (MkQuirks true false false false false false) in
   let s := exec c hist_d18 in
   stat s = Running /\ a_ops s = [1] /\ a_srs s = [0] /\
   (* every tick from now on starts nothing, whatever the members of the running assembly acknowledge *)
@@ -944,7 +944,7 @@ Lemma checkpoints_resume_refuted_keep_pending_proof :
             completed (sto s') = 0 /\ o_started (snd (step c s' OTick)) = [].
 Proof.
   cbv zeta. split; [vm_compute; reflexivity|]. split; [vm_compute; reflexivity|]. split; [vm_compute; reflexivity|].
-  intros k. set (c := cfg_of (MkQuirks true false false false false)). set (s := exec c hist_d18).
+  intros k. set (c := cfg_of (MkQuirks true false false false false false)). set (s := exec c hist_d18).
   assert (T : forall k, fst (run c s (repeat OTick k ++ [OAckOp 1 1; OAckSr 0 1; OAckOp 1 2; OAckSr 0 2; OTick])) =
                         fst (run c s [OAckOp 1 1; OAckSr 0 1; OAckOp 1 2; OAckSr 0 2; OTick])).
   { intros j. induction j as [|j IH]; [reflexivity|]. cbn [repeat app]. rewrite <- IH.
@@ -956,7 +956,7 @@ Proof.
 Qed.
 
 Lemma checkpoints_resume_refuted_splitters_proof :
-  let c := cfg_of (MkQuirks false true false false false) in
+  let c := cfg_of (MkQuirks false true false false false false) in
   let s := exec c hist_d30 in
   stat s = Running /\ a_ops s = [1] /\ a_srs s = [0] /\ pend (sto s) = None /\
   map o_res (snd (run c s [OTick; OAckOp 1 2; OAckSr 0 2])) = [0; 0; 2] /\
@@ -969,7 +969,7 @@ Definition hist_sp_a : list op := [ORegOp 0; ORegSr 0; OFin true; OSavepoint; OA
 Definition hist_sp_b : list op := [ORegOp 0; ORegSr 0; OFin true; OTick; OSavepoint; OAckSr 0 1; ODeregOp 0; ORegOp 1; OFin true].
 
 Lemma checkpoints_resume_refuted_keep_savepoint_proof :
-  let c := cfg_of (MkQuirks false false false true false) in
+  let c := cfg_of (MkQuirks false false false true false false) in
   forall h, h = hist_sp_a \/ h = hist_sp_b ->
   let s := exec c h in
   stat s = Running /\ a_ops s = [1] /\ a_srs s = [0] /\
@@ -980,7 +980,7 @@ Proof. intros c h [-> | ->]; vm_compute; repeat split; reflexivity. Qed.
 (* seeded C15r2-1: the ticker is created once only; every pause stops it: after the first recovery it never fires again *)
 Definition hist_tk : list op := [ORegOp 0; ORegSr 0; OFin true; OTick; OAckOp 0 1; OAckSr 0 1; ODeregOp 0; ORegOp 1; OFin true].
 Lemma checkpoints_resume_refuted_ticker_once_proof :
-  let c := cfg_of (MkQuirks false false false false true) in
+  let c := cfg_of (MkQuirks false false false false true false) in
   let s := exec c hist_tk in
   stat s = Running /\ a_ops s = [1] /\ a_srs s = [0] /\ pend (sto s) = None /\ completed (sto s) = 1 /\
   ticker s = 2 /\ step c s OTick = (s, mk_obs s []).
@@ -990,13 +990,14 @@ Proof. vm_compute. repeat split; reflexivity. Qed.
 Lemma oper_barriers_complete : forall id runners w order,
   NoDup order -> (forall x, In x order <-> In x w) -> order <> [] -> incl w runners -> sorted w ->
   forall o, o_runners o = runners -> o_slot o = Some (MkSlot id w) ->
-  exists pre_rs, snd (oper_barriers o order id) = pre_rs ++ [2] /\ Forall (fun r => r = 0) pre_rs /\
-                 o_slot (fst (oper_barriers o order id)) = None.
+  exists pre_rs, snd (oper_barriers o order id true) = pre_rs ++ [2] /\ Forall (fun r => r = 0) pre_rs /\
+                 o_slot (fst (oper_barriers o order id true)) = None.
 Proof.
   intros id runners w order. revert w. induction order as [|x t IH]; intros w ND Hw Hne Hincl Sw o Ho Hs; [contradiction|].
   inversion ND as [|? ? Hx NDt]; subst.
   cbn [oper_barriers]. unfold oper_barrier. rewrite Hs. cbn [sl_wait sl_id].
-  assert (Mx : mem x w = true) by (apply mem_In, Hw; left; reflexivity). rewrite Mx. cbn [negb]. rewrite N.eqb_refl. cbn [negb].
+  assert (Mx : mem x w = true) by (apply mem_In, Hw; left; reflexivity). rewrite Mx. cbn [negb]. rewrite andb_false_r.
+  rewrite N.eqb_refl. cbn [negb]. unfold oper_finish.
   assert (Hrem : forall y, In y (rem x w) <-> In y t).
   { intros y. rewrite In_rem. split.
     - intros [Hy Hn]. apply Hw in Hy. destruct Hy as [->|Hy]; [contradiction | exact Hy].
@@ -1010,22 +1011,24 @@ Proof.
     + intros y. symmetry. apply Hrem.
     + intros y Hy. apply Hincl. rewrite <- R in Hy. apply In_rem in Hy. apply Hy.
     + rewrite <- R. apply sorted_filter. exact Sw.
-    + destruct (oper_barriers o1 t id) as [o2 rs] eqn:OB. cbn [fst snd] in *.
+    + destruct (oper_barriers o1 t id true) as [o2 rs] eqn:OB. cbn [fst snd] in *.
       exists (0 :: prs). split; [rewrite E1; reflexivity|]. split; [constructor; [reflexivity | exact E2] | exact E3].
 Qed.
 
 Lemma operator_slot_resumes_proof : forall q o runners order id,
-  q_keep_slot q = false -> sorted runners -> runners <> [] ->
+  q_keep_slot q = false -> q_keep_complete_slot q = false -> sorted runners -> runners <> [] ->
   NoDup order -> (forall x, In x order <-> In x runners) ->
   let o1 := oper_deploy q o runners in
-  exists pre_rs, snd (oper_barriers o1 order id) = pre_rs ++ [2] /\ Forall (fun r => r = 0) pre_rs /\
-                 o_slot (fst (oper_barriers o1 order id)) = None.
+  exists pre_rs, snd (oper_barriers o1 order id true) = pre_rs ++ [2] /\ Forall (fun r => r = 0) pre_rs /\
+                 o_slot (fst (oper_barriers o1 order id true)) = None.
 Proof.
-  intros q o runners order id Q Sr Hne ND Ho o1.
+  intros q o runners order id Q Qc Sr Hne ND Ho o1.
   assert (Hord : order <> []).
   { destruct runners as [|r rs]; [contradiction|]. intros ->. apply (proj2 (Ho r)). left. reflexivity. }
   destruct order as [|x t]; [contradiction|]. inversion ND as [|? ? Hx NDt]; subst.
-  unfold o1, oper_deploy. rewrite Q. cbn [oper_barriers]. unfold oper_barrier. cbn [o_slot o_runners].
+  assert (D : oper_deploy q o runners = MkOper runners None).
+  { unfold oper_deploy. rewrite Q, Qc. cbn [andb]. destruct (o_slot o); reflexivity. }
+  unfold o1. rewrite D. cbn [oper_barriers]. unfold oper_barrier, oper_finish. cbn [o_slot o_runners].
   assert (Hrem : forall y, In y (rem x runners) <-> In y t).
   { intros y. rewrite In_rem. split.
     - intros [Hy Hn]. apply Ho in Hy. destruct Hy as [->|Hy]; [contradiction | exact Hy].
@@ -1039,13 +1042,13 @@ Proof.
     + intros y. symmetry. apply Hrem.
     + intros y Hy. rewrite <- R in Hy. apply In_rem in Hy. apply Hy.
     + rewrite <- R. apply sorted_filter. exact Sr.
-    + destruct (oper_barriers o2 t id) as [o3 rs] eqn:OB. cbn [fst snd] in *.
+    + destruct (oper_barriers o2 t id true) as [o3 rs] eqn:OB. cbn [fst snd] in *.
       exists (0 :: prs). split; [rewrite E1; reflexivity|]. split; [constructor; [reflexivity | exact E2] | exact E3].
 Qed.
 
 Lemma operator_slot_refuted_proof :
-  let o1 := fst (oper_barriers (oper_deploy original (MkOper [] None) [0; 1]) [0] 4) in
-  snd (oper_barriers (oper_deploy original o1 [0; 1]) [1; 0] 6) = [1; 3].
+  let o1 := fst (oper_barriers (oper_deploy original (MkOper [] None) [0; 1]) [0] 4 true) in
+  snd (oper_barriers (oper_deploy original o1 [0; 1]) [1; 0] 6 true) = [1; 3].
 Proof. vm_compute. reflexivity. Qed.
 
 (* ---------------------------------------------------------------- the operator's keyed state across redeployments *)
@@ -1107,4 +1110,31 @@ Proof.
   - intros id x H. cbn [sstep fst applied]. rewrite H. reflexivity.
   - cbn [sstep fst snaps snap_get]. rewrite N.eqb_refl. reflexivity.
   - intros k. reflexivity.
+Qed.
+
+(* seeded C15r5-3: the deploy clears the slot only while it is half aligned. Runners [0,1]: both barriers of 4 arrive,
+   the job refuses the ack (result 5: the slot stays, complete but unreported); after the redeployment every barrier of
+   5 is rejected. On the repaired code (current) the same history completes checkpoint 5. *)
+Lemma operator_slot_refuted_keep_complete_proof :
+  let q := MkQuirks false false false false false true in
+  let o1 := fst (oper_barriers (oper_deploy q (MkOper [] None) [0; 1]) [0; 1] 4 false) in
+  snd (oper_barriers (oper_deploy q (MkOper [] None) [0; 1]) [0; 1] 4 false) = [0; 5] /\
+  o_slot o1 = Some (MkSlot 4 []) /\
+  snd (oper_barriers (oper_deploy q o1 [0; 1]) [1; 0] 5 true) = [1; 1] /\
+  snd (oper_barriers (oper_deploy current o1 [0; 1]) [1; 0] 5 true) = [0; 2].
+Proof. vm_compute. repeat split; reflexivity. Qed.
+
+(* what the code does with a refused ack when NO redeployment follows: the complete-but-unreported slot rejects every
+   barrier of a later checkpoint (nothing parks: the alignment channel is closed); only a barrier of the same id makes
+   the operator checkpoint and report again *)
+Lemma refused_slot_without_redeploy_proof : forall runners id id' sender accept,
+  id' <> id ->
+  let o := MkOper runners (Some (MkSlot id [])) in
+  oper_barrier o sender id' accept = (o, 1) /\
+  oper_barrier o sender id accept = oper_finish o id accept.
+Proof.
+  intros runners id id' sender accept H o. unfold oper_barrier, o. cbn [o_slot sl_wait sl_id andb rem filter].
+  split.
+  - apply N.eqb_neq in H. rewrite N.eqb_sym, H. reflexivity.
+  - rewrite N.eqb_refl. reflexivity.
 Qed.
